@@ -52,16 +52,75 @@ def has_equivalent_gates(p, c):
     return None
 
 
-def run_case(p, name, c0, params, variant):
-    import mockturtle_wrapper as mw
+class timeouts_at:
+    """Environment stub for the time-limited solver call (pebble.ProcessPool + future.result(timeout)):
+    the call runs in-process and, for the call numbers in `calls`, ends the way pebble documents for an
+    expired time limit (TimeoutError from future.result()).  Which calls time out is the schedule."""
+
+    def __init__(self, calls):
+        self.calls, self.count = set(calls), 0
+
+    def __enter__(self):
+        import types
+        from cirbo.synthesis import circuit_search as cs
+
+        outer = self
+
+        class _Future:
+            def __init__(self, fn, args, idx):
+                self.fn, self.args, self.idx = fn, args, idx
+
+            def result(self):
+                if self.idx in outer.calls:
+                    raise TimeoutError()
+                return self.fn(*self.args)
+
+        class _Pool:
+            def __init__(self, *a, **k):
+                pass
+
+            def __enter__(self):
+                return self
+
+            def __exit__(self, *exc):
+                return False
+
+            def schedule(self, fn, args=(), kwargs=None, timeout=None):
+                outer.count += 1
+                return _Future(fn, list(args), outer.count - 1)
+
+        self.cs, self.saved = cs, cs.pebble
+        cs.pebble = types.SimpleNamespace(ProcessPool=_Pool)
+        return self
+
+    def __exit__(self, *exc):
+        self.cs.pebble = self.saved
+        return False
+
+
+def minimize(c, params, schedule):
     from cirbo.minimization import minimize_subcircuits
 
+    if schedule is None:
+        return minimize_subcircuits(c, **params)
+    with timeouts_at(schedule) as t:
+        r = minimize_subcircuits(c, **params)
+    minimize.calls = t.count
+    return r
+
+
+def run_case(p, name, c0, params, variant, schedule=None):
+    import mockturtle_wrapper as mw
+    from cirbo.minimization import minimize_subcircuits as _real  # noqa: F401
+
+    minimize_subcircuits = lambda c, **params: minimize(c, params, schedule)  # noqa: E731
     c = rebuild(c0)
     mw.VARIANT = variant
     src = (REPLAY_PRELUDE + circ.circ_src(c0) + "\nimport itertools\nimport mockturtle_wrapper as mw\nfrom cirbo.minimization import minimize_subcircuits\n"
            "from cirbo.minimization.exception import FailedValidationError, UnsupportedOperationError\n"
-           f"mw.VARIANT={variant!r}\nparams={params!r}\n" + circ.circ_src(c0, "o") + "\n")
-    p.case(("c04", circ.snapshot(c0)[:3], repr(sorted(params.items())), repr(variant)),
+           f"mw.VARIANT={variant!r}\nparams={params!r}\n" + circ.circ_src(c0, "o") + "\n"
+           f"from checks import c04\nschedule={None if schedule is None else sorted(schedule)!r}\n_real=minimize_subcircuits\nminimize_subcircuits=lambda c, **params: c04.minimize(c, params, schedule)\n")
+    p.case(("c04", circ.snapshot(c0)[:3], repr(sorted(params.items())), repr(variant), None if schedule is None else tuple(sorted(schedule))),
            sample=f"{name}: {circ.describe(c0)} params={params} cuts={variant}" if len(p.samples) < 3 else None)
     try:
         r = minimize_subcircuits(c, **params)
@@ -69,7 +128,7 @@ def run_case(p, name, c0, params, variant):
         p.count("unsupported")
         return
     except FailedValidationError:
-        p.violation(f"minimize:FailedValidationError:{params['basis']}", f"validation failed for {circ.describe(c0)} params={params} cuts={variant}",
+        p.violation(f"minimize:FailedValidationError:{params['basis']}", f"validation failed for {circ.describe(c0)} params={params} cuts={variant} timeouts={schedule}",
                     src + "try:\n    minimize_subcircuits(c, **params)\nexcept FailedValidationError:\n    print('FailedValidationError'); sys.exit(1)\nexcept Exception as e:\n    print(type(e).__name__, e)\nsys.exit(0)\n")
         return
     except Exception as e:  # noqa: BLE001
@@ -79,7 +138,7 @@ def run_case(p, name, c0, params, variant):
 
             where = traceback.extract_tb(e.__traceback__)[-1]
             p.violation(f"minimize:internal-error:{type(e).__name__}:{where.name}",
-                        f"{type(e).__name__}: {e} at {where.name}:{where.lineno} for {circ.describe(c0)} (no two gates are functionally equivalent) params={params} cuts={variant}",
+                        f"{type(e).__name__}: {e} at {where.name}:{where.lineno} for {circ.describe(c0)} (no two gates are functionally equivalent) params={params} cuts={variant} solver calls that time out={schedule}",
                         src + "try:\n    minimize_subcircuits(c, **params)\nexcept (FailedValidationError, UnsupportedOperationError) as e:\n    print(type(e).__name__); sys.exit(0)\n"
                         "except Exception as e:\n    tt=o.get_gates_truth_table(); labs=list(tt)\n"
                         "    eq=[(a,b) for i,a in enumerate(labs) for b in labs[i+1:] if list(tt[a])==list(tt[b])]\n"
@@ -112,7 +171,7 @@ def run_case(p, name, c0, params, variant):
         if r.gates_number() < c0.gates_number():
             p.count("improved")
     if probs:
-        p.violation(f"minimize:{probs[0].split(' ')[0]}:{params['basis']}", f"{probs[:2]} for {circ.describe(c0)} -> {circ.describe(r)} params={params} cuts={variant}",
+        p.violation(f"minimize:{probs[0].split(' ')[0]}:{params['basis']}", f"{probs[:2]} for {circ.describe(c0)} -> {circ.describe(r)} params={params} cuts={variant} solver calls that time out={schedule}",
                     src + "r=minimize_subcircuits(c, **params)\nbad=[]\n"
                     "if list(r.inputs)!=list(o.inputs) or len(r.outputs)!=len(o.outputs): bad.append('interface')\n"
                     "if r.gates_number()>o.gates_number(): bad.append('larger')\n"
@@ -178,6 +237,11 @@ def special_circuits():
         [("n", G.NOT, ("a",)), ("p", G.AND, ("n", "b")), ("q", G.OR, ("p", "b")), ("r", G.XOR, ("q", "c")), ("s", G.AND, ("n", "c"))],
         ["r", "s"])))
     out.append(("absorption", circgen.build(["a", "b"], [("o", G.OR, ("a", "b")), ("x", G.AND, ("a", "o"))], ["x"])))
+    out.append(("absorbed-output-listed-twice", circgen.build(
+        ["x", "y", "z"], [("g1", G.OR, ("x", "y")), ("g2", G.AND, ("x", "g1")), ("g3", G.XOR, ("y", "z"))], ["g2", "g3", "g2"])))
+    out.append(("absorbed-outputs-only-twice", circgen.build(["x", "y"], [("g1", G.OR, ("x", "y")), ("g2", G.AND, ("x", "g1"))], ["g2", "g2"])))
+    out.append(("improvable-output-listed-twice", circgen.build(
+        ["a", "b"], [("o", G.OR, ("a", "b")), ("n", G.NAND, ("a", "b")), ("x", G.AND, ("o", "n"))], ["x", "a", "x"])))
     out.append(("xor-from-and-or", circgen.build(
         ["a", "b"], [("o", G.OR, ("a", "b")), ("n", G.NAND, ("a", "b")), ("x", G.AND, ("o", "n"))], ["x"])))
     out.append(("output-is-cone-member", circgen.build(
@@ -202,11 +266,33 @@ def special_circuits():
     return out
 
 
+PREFIXES = ["g", "n", "w", "gate_", "node", "k", "q", "t_", "aux", "z", "v", "sig", "m_", "p"]
+
+
+def correlated_leaves(rnd):
+    """A two-gate cone over three leaf gates that share primary inputs (so some leaf combinations never occur and the
+    cone has don't-care rows); the leaf order inside the library comes from a set of labels, hence the label prefixes."""
+    pre = rnd.choice(PREFIXES)
+    xs = ["x0", "x1", "x2", "x3"]
+    g = [f"{pre}{i}" for i in range(5)]
+    shared = rnd.choice(xs)
+    pairs = [(rnd.choice([x for x in xs if x != shared]), shared), (shared, rnd.choice([x for x in xs if x != shared])), tuple(rnd.sample(xs, 2))]
+    gates = [(g[i], rnd.choice(BIN), pairs[i]) for i in range(3)]
+    i, j, k = rnd.sample(range(3), 3)
+    gates.append((g[3], rnd.choice(BIN), (g[i], g[j])))
+    gates.append((g[4], rnd.choice(BIN), (g[3], g[k]) if rnd.random() < 0.5 else (g[k], g[3])))
+    return circgen.build(xs, gates, [g[4]])
+
+
 def unit(p, item, tier, seed):
     s = item
     rnd = random.Random(s)
     thorough = tier == "thorough"
     fam = special_circuits() if s % 8 == 0 else []
+    for i in range(4 if not thorough else 12):
+        c0 = correlated_leaves(rnd)
+        run_case(p, f"correlated[{s}:{i}]", c0, dict(basis=rnd.choice(["XAIG", "AIG", "FULL"]), enable_validation=True, cut_size=3), "canonical")
+        run_case(p, f"correlated[{s}:{i}]", c0, dict(basis="XAIG", enable_validation=True), "canonical")
     for i in range(6 if not thorough else 14):
         fam.append((f"seeded[{s}:{i}]", redundant_circuit(rnd, rnd.randint(2, 4), rnd.randint(3, 9 if thorough else 7))))
     variants = ["canonical", "reversed", ("shuffled", s), ("truncated", 2)]
@@ -215,10 +301,11 @@ def unit(p, item, tier, seed):
             # special shapes: every basis with the default parameters and the canonical cut family
             for basis in ("AIG", "XAIG", "FULL"):
                 run_case(p, name, c0, dict(basis=basis, enable_validation=True, max_subcircuit_size=9, solver_time_limit_sec=15, cut_size=5, cut_limit=25), "canonical")
+                run_case(p, name, c0, dict(basis=basis, enable_validation=False, solver_time_limit_sec=0), "canonical")
         for k in range(2 if not thorough else 4):
             params = dict(
                 basis=rnd.choice(["AIG", "XAIG", "FULL", "xaig"]) if k else rnd.choice(["XAIG", "AIG"]),
-                enable_validation=True,
+                enable_validation=(k % 2 == 0) or rnd.random() < 0.5,
                 max_subcircuit_size=rnd.choice([2, 4, 9]),
                 solver_time_limit_sec=rnd.choice([1, 15]) if thorough else 15,
                 cut_size=rnd.choice([2, 3, 5]),
@@ -229,6 +316,15 @@ def unit(p, item, tier, seed):
 
                 params["basis"] = params["basis"].upper()
             run_case(p, name, c0, params, variants[(k + s) % len(variants)])
+        # time-limit schedules: the k-th solver call (and only it / it and all later ones) runs out of time
+        params = dict(basis=rnd.choice(["XAIG", "AIG", "FULL"]), enable_validation=True, solver_time_limit_sec=rnd.choice([1, 7]))
+        run_case(p, name, c0, params, "canonical", schedule=set())
+        n_calls = getattr(minimize, "calls", 0)
+        p.count("solver_calls_under_schedule", n_calls)
+        for k in range(min(n_calls, 6 if thorough else 4)):
+            run_case(p, name, c0, params, "canonical", schedule={k})
+            if k and (thorough or k == 1):
+                run_case(p, name, c0, params, "canonical", schedule=set(range(k, n_calls)))
 
 
 def run(rep, tier, seed, only=None):
@@ -238,7 +334,7 @@ def run(rep, tier, seed, only=None):
                      "Circuit.replace_subcircuit", "CircuitFinderSat (time-limited path)", "build_miter + is_circuit_satisfiable (validation)"]
     rep.bounds = {"circuits": "special redundant circuits + seeded binary circuits over the 11 supported types, <=4 inputs, <=7 (quick) / <=9 (thorough) base gates plus redundancy",
                   "parameters": "basis AIG/XAIG/FULL (str), max_subcircuit_size {2,4,9}, cut_size {2,3,5}, cut_limit {2,25}, time limit {15} quick / {1,15} thorough",
-                  "cut families": "canonical, reversed, shuffled(seed), truncated(2)", "hash seeds": "the runner's own PYTHONHASHSEED (quick); subprocess per seed 0..3 (thorough)"}
+                  "cut families": "canonical, reversed, shuffled(seed), truncated(2)", "time-limit schedules": "no call, exactly the k-th call (k<4 quick / <6 thorough), every call from the k-th on times out (environment stub of pebble's time-limited future)", "hash seeds": "the runner's own PYTHONHASHSEED (quick); subprocess per seed 0..3 (thorough)"}
     rep.outside = ["n-ary gates (pattern simulation reads two operands)", "hash seeds other than those run", "circuits with functionally equivalent gates: internal errors there are counted, not alarmed (the property excludes them)"]
     rep.rule = "program = (circuit, parameter setting, cut family); equivalence decided by z3 over all inputs"
     rep.explanation = "translation validation of each minimize_subcircuits call"
